@@ -64,6 +64,8 @@ func S8SharedState(p *core.Program, a *spec.Anchors, r *core.Report) {
 				switch {
 				case types.Identical(et, types.Universe.Lookup("error").Type()):
 					r.Pass("S8.global", key, "", p.Pos(g.Pos()), "sentinel error, never reassigned")
+				case funcGlobalStateless(p, g):
+					r.Pass("S8.global", key, "", p.Pos(g.Pos()), "function-valued, never reassigned, bound to a function without captured variables")
 				case globalOnlyRead(p, g):
 					r.Pass("S8.global", key, "", p.Pos(g.Pos()), "reference-typed but only read (lookup / index / range / len) after initialisation")
 				default:
@@ -230,4 +232,63 @@ func globalOnlyRead(p *core.Program, g *ssa.Global) bool {
 		}
 	}
 	return true
+}
+
+// funcGlobalStateless: g has function type and every value ever stored in it (package initialisation) is a plain
+// function or a closure without captured variables, so calling it shares no state.
+func funcGlobalStateless(p *core.Program, g *ssa.Global) bool {
+	if _, ok := g.Type().(*types.Pointer).Elem().Underlying().(*types.Signature); !ok {
+		return false
+	}
+	stores := 0
+	for _, fn := range p.ModuleFunctions() {
+		for _, b := range fn.Blocks {
+			for _, in := range b.Instrs {
+				st, ok := in.(*ssa.Store)
+				if !ok || st.Addr != g {
+					continue
+				}
+				stores++
+				switch v := st.Val.(type) {
+				case *ssa.Function:
+					if len(v.FreeVars) > 0 {
+						return false
+					}
+				case *ssa.MakeClosure:
+					if len(v.Bindings) > 0 {
+						return false
+					}
+				default:
+					return false
+				}
+			}
+		}
+	}
+	// also package init functions that ModuleFunctions may skip
+	if sp := g.Pkg; sp != nil {
+		if initFn := sp.Func("init"); initFn != nil {
+			for _, b := range initFn.Blocks {
+				for _, in := range b.Instrs {
+					st, ok := in.(*ssa.Store)
+					if !ok || st.Addr != g {
+						continue
+					}
+					stores++
+					switch v := st.Val.(type) {
+					case *ssa.Function:
+						if len(v.FreeVars) > 0 {
+							return false
+						}
+					case *ssa.MakeClosure:
+						if len(v.Bindings) > 0 {
+							return false
+						}
+					default:
+						return false
+					}
+				}
+			}
+		}
+	}
+	return stores > 0
 }
